@@ -127,6 +127,7 @@ def run(tier, seed):
     geoms = [(e, G) for e, G in tc.geometries() if G.ovh % 2 == 0 and G.ovh >= 2]
     geoms = [g for g in geoms if g[0].get("name") in ("BsaI", "BbsI", "BsmBI", "FokI") or "syn" in g[0]]
     run.model_check("MC_Assembly", "MC_Assembly_quick.cfg" if q else "MC_Assembly_thorough.cfg", coverage=True, timeout=7200)
+    run.model_check("MC_Assembly", "Neg_AssemblyPal.cfg", expect_violation="C03_OutcomeIsExpected")
     recipes, traces = replay_graph(run, "MC_Assembly_replay.cfg" if q else "MC_Assembly_quick.cfg", geoms, 600 if q else 8000)
     # the replayed executions are also judged by the DNA-level trace specification
     run.validate("graph-scenarios", "Trace_Assembly", traces, recipes, sigfn=ac.asm_sig, describe=ac.asm_describe)
